@@ -250,7 +250,43 @@ impl Monitor for C17 {
                 }
             }
         }
+        supplemental_replay(w, obs, &t, acc);
     }
+}
+
+/// A v2 two-hop may carry supplemental tick arrays per pool (wire tags 7 = pool one, 8 = pool two, as published);
+/// handing each pool its own arrays again changes nothing - as it changes nothing for the single swaps.
+fn supplemental_replay(w: &mut World, obs: &Obs, t: &TwoHop, acc: &mut Acc) {
+    let fail = |acc: &mut Acc, sig: &str, detail: String| {
+        acc.violation(format!("c17:{sig}:{}", obs.ix.name), detail, json!({"instruction": ix_brief(&obs.ix)}));
+    };
+        if t.v2 && obs.ix.data.last() == Some(&0) && w.r.gen_range(0..3) == 0 {
+            let mut i2 = obs.ix.clone();
+            let (one, two): (Vec<Pubkey>, Vec<Pubkey>) = ((0..3).map(|k| obs.ix.key(&format!("tick_array_one_{k}"))).collect(), (0..3).map(|k| obs.ix.key(&format!("tick_array_two_{k}"))).collect());
+            let (n1, n2) = (w.r.gen_range(1..=3usize), w.r.gen_range(1..=3usize));
+            i2.data.pop();
+            i2.data.push(1);
+            i2.data.extend_from_slice(&2u32.to_le_bytes());
+            let two_first = w.r.gen::<bool>();
+            let order: [(u8, &Vec<Pubkey>, usize); 2] = if two_first { [(crate::ix::build::ACCOUNTS_TYPE_SUPPLEMENTAL_TICK_ARRAYS_TWO, &two, n2), (crate::ix::build::ACCOUNTS_TYPE_SUPPLEMENTAL_TICK_ARRAYS_ONE, &one, n1)] } else { [(crate::ix::build::ACCOUNTS_TYPE_SUPPLEMENTAL_TICK_ARRAYS_ONE, &one, n1), (crate::ix::build::ACCOUNTS_TYPE_SUPPLEMENTAL_TICK_ARRAYS_TWO, &two, n2)] };
+            let mut idx = 0;
+            for (tag, keys, n) in order {
+                i2.data.push(tag);
+                i2.data.push(n as u8);
+                for k in keys.iter().take(n) {
+                    i2.metas.push(crate::ix::w(crate::ix::REMAINING_NAMES[idx], *k));
+                    idx += 1;
+                }
+            }
+            let canon = w.bank.clone();
+            let (o, bb) = w.simulate(&obs.pre, &i2);
+            acc.count("two_hops_replayed_with_supplemental_arrays");
+            if !o.ok() {
+                fail(acc, "supplemental_arrays_rejected", format!("the same two-hop with each pool's own tick arrays also listed as supplemental arrays (tags 7 / 8) failed with {:?}", o.err));
+            } else if !crate::world::diff_on(&obs.ix, &bb, &canon).is_empty() {
+                fail(acc, "supplemental_arrays_changed_outcome", "the same two-hop with each pool's own tick arrays also listed as supplemental arrays ended in another state".into());
+            }
+        }
 }
 
 /// C03 for two-hop swaps.
